@@ -137,7 +137,7 @@ def run(ctx):
             p = H.show_pat(a["pat"])
             if "Raw" in p and "|" not in p:
                 ext = [x for x in hq.find(a["body"], lambda x: x.get("k") == "MethodCall" and x["name"] in ("extend", "extend_from_slice"))]
-                ok = len(ext) == 1 and lc(ext[0]["args"][0]) == "$2[0..($0.regenerated_size as usize)]" and \
+                ok = len(ext) == 1 and lc(ext[0]["args"][0]) in ("$2[0..($0.regenerated_size as usize)]", "$2[..($0.regenerated_size as usize)]") and \
                     lc(hq.tail_expr(a["body"])) == "core::result::Result::Ok($0.regenerated_size)"
                 ctx.check(ok, RD, "decode_literals::Raw", H.loc(lb, a["body"]), "raw literals: copy regenerated_size bytes, consume as many",
                           observed=[lc(x["args"][0]) for x in ext])
@@ -191,14 +191,15 @@ def run(ctx):
                 rle_w = [k for k in asg if k[-1].endswith("_rle")]
                 if mode == "FSECompressed":
                     ok = len(calls) == 1 and calls[0]["name"] == "build_decoder" and hq.field_chain(calls[0]["recv"])[1] == [tbl] and \
-                        c(calls[0]["args"][1]) == SSD + "::%s_MAX_LOG" % T_ and rle_w == [(rle,)] and H.show(asg[(rle,)]["r"]).endswith("None")
+                        c(calls[0]["args"][1]) == str(SPEC["sequences_header"]["max_log"][T_]) and rle_w == [(rle,)] and H.show(asg[(rle,)]["r"]).endswith("None")
                     srcs.append(c(calls[0]["args"][0]) if calls else None)
                     ctx.check(ok, RS, key, H.loc(body, a["body"]),
                               "FSE mode must build the %s table with %s_MAX_LOG and clear the %s RLE symbol" % (T_, T_, T_),
                               observed={"calls": [H.show(x)[:80] for x in calls], "rle": [list(k) for k in rle_w]})
                 elif mode == "Predefined":
                     ok = len(calls) == 1 and calls[0]["name"] == "build_from_probabilities" and hq.field_chain(calls[0]["recv"])[1] == [tbl] and \
-                        c(calls[0]["args"][0]) == SSD + "::%s_DEFAULT_ACC_LOG" % T_ and (SSD + "::" + dist) in c(calls[0]["args"][1]) and \
+                        c(calls[0]["args"][0]) == str(SPEC["predefined"][T_]["acc_log"]) and \
+                        ("[" + ", ".join(str(v) for v in SPEC["predefined"][T_]["dist"]) + "]") in c(calls[0]["args"][1]) and \
                         rle_w == [(rle,)] and H.show(asg[(rle,)]["r"]).endswith("None")
                     ctx.check(ok, RS, key, H.loc(body, a["body"]),
                               "predefined mode must build the %s table from its default distribution and clear the RLE symbol" % T_,
@@ -208,8 +209,9 @@ def run(ctx):
                     for s in hq.find(a["body"], lambda x: x.get("k") == "If"):
                         if T.diverges(s["then"]):
                             gs.append(ix.canon(s["cond"]))
-                    okg = len(gs) == 2 and gs[0].startswith("(0 == ") and gs[0].endswith(".len())") and \
-                        gs[1].endswith("[0])") and ("ruzstd::blocks::sequence_section::" + maxc + " <") in gs[1]
+                    maxv = {"LL": max(int(k_) for k_ in SPEC["ll_codes"]), "ML": max(int(k_) for k_ in SPEC["ml_codes"]), "OF": SPEC["of_max_code"]}[T_]
+                    okg = len(gs) == 2 and gs[0].startswith("(0 == core::slice::len(") and \
+                        gs[1].endswith("[0])") and gs[1].startswith("(%d < " % maxv)
                     okw = rle_w == [(rle,)] and H.show(asg[(rle,)]["r"]).startswith("Option::Some(") and \
                         H.show(asg[(rle,)]["r"]).endswith("[0])") and not calls
                     ctx.check(okg and okw, RS, key, H.loc(body, a["body"]),
